@@ -511,4 +511,18 @@ theorem container_cv_is_cycle_vector (F : List Char → Option Rat) (g : Cycles.
 example : Cycles.wrapIdx (Cycles.wrapAt 4) [1, 5, 0, 3, 6, 1] 0 = [2, 5] := by decide +kernel
 example : Cycles.cvIdx (Cycles.wrapAt 4) (fun _ => true) [1, 5, 0, 3, 6, 1] = [0, 0, 1, 1, 1, 2] := by decide +kernel
 
+/-- Link to the quality-check model (C13): `EmdModel/Cycles.lean` has its own model of "the container's
+    per-cycle quality flag" (`Cycles.containerIsGood`: `is_good` on every run of the all-cycles partition),
+    of which C13 proves that it agrees with the labels of `get_cycle_vector(return_good=True)`
+    (`C13.container_flag_agrees`).  The `is_good` metric the container model's constructor stores —
+    through `compute_cycle_metric`, cache on or off — is exactly that vector (True ↦ 1.0, False ↦ 0.0). -/
+theorem init_is_good_is_quality_flag (g : Cycles.GoodCfg) (pstep thr : Rat) (cache : Bool) (ph : List Rat) :
+    sget (init g pstep thr cache ph).1.metrics isGoodName =
+      some ((Cycles.containerIsGood g pstep ph).map fun b => some (if b then 1 else 0)) := by
+  have h := init_is_good g pstep thr cache ph
+  obtain ⟨hcv, hK⟩ := ComposeContainer.run_cv (fun _ => none) g pstep thr cache ph []
+  simp only [run, List.foldl_nil] at hcv hK
+  simp only [] at h
+  rw [h, hcv, hK, ComposeContainer.isGood_metric]
+
 end C15
